@@ -11,10 +11,14 @@ EXTENDS Lattice, TLC
 CONSTANTS MaxN,        \* <<max n in 1-D, 2-D, 3-D, 4-D>>
           CProf,       \* set of cell-size profiles, each a 4-sequence of multiples of 4
           LoProf,      \* set of lower-corner profiles, each a 4-sequence
-          CellReq      \* candidate requested cell sizes (lattice units)
+          CellReq,     \* candidate requested cell sizes (lattice units)
+          MoveMaxDim   \* in-place moves are explored for meshes of at most this many dimensions
 
-VARIABLES mesh, act, obs
-vars == <<mesh, act, obs>>
+VARIABLES mesh,   \* the current lattice configuration
+          moved,  \* <<>> or <<move, mesh before>>: the mesh object was transformed IN PLACE after all its
+                  \* derived data (cells, vertices, coordinate field, iteration) had been read once
+          act, obs
+vars == <<mesh, moved, act, obs>>
 
 Rej   == [ok |-> FALSE]
 Ok(v) == [ok |-> TRUE, v |-> v]
@@ -50,50 +54,70 @@ CellReqResult(m, cr) == IF \A d \in Dims(m) : cr[d] <= Edge(m, d) /\ Edge(m, d) 
                         THEN Ok([d \in Dims(m) |-> Edge(m, d) \div cr[d]]) ELSE Rej
 
 (* ---- actions ----------------------------------------------------------------------- *)
-Init == mesh \in Meshes /\ act = <<"new">> /\ obs = [n |-> mesh.n, len |-> NCells(mesh)]
+NewObs(m) == [n |-> m.n, len |-> NCells(m)]
+Init == mesh \in Meshes /\ moved = <<>> /\ act = <<"new">> /\ obs = NewObs(mesh)
+
+(* in-place transformations that keep the mesh on the integer lattice *)
+MoveKinds == {"translate", "scale2_about_pmin", "scale2_about_origin", "rot90_about_pmin"}
+MoveVec == <<8, -12, 20, -4>>
+ApplyMove(m, mv) ==
+   CASE mv = "translate"           -> [m EXCEPT !.lo = [d \in Dims(m) |-> m.lo[d] + MoveVec[d]]]
+     [] mv = "scale2_about_pmin"   -> [m EXCEPT !.c = [d \in Dims(m) |-> 2 * m.c[d]]]
+     [] mv = "scale2_about_origin" -> [m EXCEPT !.c = [d \in Dims(m) |-> 2 * m.c[d]], !.lo = [d \in Dims(m) |-> 2 * m.lo[d]]]
+        \* one quarter turn from axis 1 to axis 2 about pmin: (x, y) -> (x0 - (y - y0), y0 + (x - x0))
+     [] mv = "rot90_about_pmin"    -> [lo |-> [m.lo EXCEPT ![1] = m.lo[1] - Edge(m, 2)],
+                                      c  |-> SwapAt(m.c, 1, 2), n |-> SwapAt(m.n, 1, 2)]
+CanMove(m, mv) == mv = "rot90_about_pmin" => ND(m) >= 2
+Move == \E mv \in MoveKinds :
+          /\ moved = <<>> /\ mesh.lo[1] = 0 /\ ND(mesh) <= MoveMaxDim /\ CanMove(mesh, mv)
+          /\ mesh' = ApplyMove(mesh, mv)
+          /\ moved' = <<mv, mesh>>
+          /\ act' = <<"new">>
+          /\ obs' = NewObs(mesh')
 
 QIterate == /\ act' = <<"iterate">>
             /\ obs' = IterOrder(mesh.n)
-            /\ UNCHANGED mesh
-QIndex2Point == \E i \in [Dims(mesh) -> -1 .. MaxSeq(mesh.n)] :
-            /\ Cardinality({d \in Dims(mesh) : ~(0 <= i[d] /\ i[d] < mesh.n[d])}) <= 1
-            /\ act' = <<"index2point", i>>
-            /\ obs' = I2PResult(mesh, i)
-            /\ UNCHANGED mesh
+            /\ UNCHANGED <<mesh, moved>>
+(* every index in range and every index one step out of range along one axis *)
+I2PProbes(m) == {i \in [Dims(m) -> -1 .. MaxSeq(m.n)] :
+                   Cardinality({d \in Dims(m) : ~(0 <= i[d] /\ i[d] < m.n[d])}) <= 1}
+QIndex2Point == /\ act' = <<"index2point">>
+                /\ obs' = [i \in I2PProbes(mesh) |-> I2PResult(mesh, i)]
+                /\ UNCHANGED <<mesh, moved>>
 (* all probes along one axis through the base point *)
 QPoint2IndexLine == \E d \in Dims(mesh) :
             /\ act' = <<"point2index_line", d>>
             /\ obs' = [x \in ProbesAx(mesh, d) |-> P2IResult(mesh, [Base(mesh) EXCEPT ![d] = x])]
-            /\ UNCHANGED mesh
-QPoint2IndexDiag == \E k \in DiagKinds, o \in DiagKinds :
-            /\ act' = <<"point2index_diag", k, o>>
-               \* axis 1 takes kind k, the other axes kind o
-            /\ obs' = LET p == [d \in Dims(mesh) |-> DiagAx(mesh, d, IF d = 1 THEN k ELSE o)]
-                      IN [p |-> p, r |-> P2IResult(mesh, p)]
-            /\ UNCHANGED mesh
+            /\ UNCHANGED <<mesh, moved>>
+QPoint2IndexDiag == \E k \in DiagKinds :
+            /\ act' = <<"point2index_diag", k>>
+               \* axis 1 takes kind k, the other axes each kind o; one probe per o
+            /\ obs' = [o \in DiagKinds |->
+                         LET p == [d \in Dims(mesh) |-> DiagAx(mesh, d, IF d = 1 THEN k ELSE o)]
+                         IN [p |-> p, r |-> P2IResult(mesh, p)]]
+            /\ UNCHANGED <<mesh, moved>>
 QCells == \E d \in Dims(mesh) :
             /\ act' = <<"cells", d>>
             /\ obs' = CentresAx(mesh, d)
-            /\ UNCHANGED mesh
+            /\ UNCHANGED <<mesh, moved>>
 QVertices == \E d \in Dims(mesh) :
             /\ act' = <<"vertices", d>>
             /\ obs' = VerticesAx(mesh, d)
-            /\ UNCHANGED mesh
+            /\ UNCHANGED <<mesh, moved>>
 QCoordField == /\ act' = <<"coordinate_field">>
                /\ obs' = [i \in Indices(mesh) |-> Centre(mesh, i)]
-               /\ UNCHANGED mesh
-QByCell == \E cr \in {[mesh.c EXCEPT ![d] = v] : d \in Dims(mesh), v \in CellReq}
-                     \cup {[d \in Dims(mesh) |-> v] : v \in CellReq} :
-            /\ act' = <<"by_cell", cr>>
-            /\ obs' = CellReqResult(mesh, cr)
-            /\ UNCHANGED mesh
+               /\ UNCHANGED <<mesh, moved>>
+CellReqs(m) == {[m.c EXCEPT ![d] = v] : d \in Dims(m), v \in CellReq} \cup {[d \in Dims(m) |-> v] : v \in CellReq}
+QByCell == /\ act' = <<"by_cell">>
+           /\ obs' = [cr \in CellReqs(mesh) |-> CellReqResult(mesh, cr)]
+           /\ UNCHANGED <<mesh, moved>>
 
-(* queries are issued from the fresh mesh only: they do not change it, so nothing new   *)
-(* is reachable behind a query state (deadlock checking is off)                        *)
+(* queries are issued from a fresh or freshly moved mesh only: they do not change it, so *)
+(* nothing new is reachable behind a query state (deadlock checking is off)             *)
 Fresh == act[1] = "new"
 Queries == \/ QIterate \/ QIndex2Point \/ QPoint2IndexLine \/ QPoint2IndexDiag
            \/ QCells \/ QVertices \/ QCoordField \/ QByCell
-Next == Fresh /\ Queries
+Next == Fresh /\ (Queries \/ Move)
 Spec == Init /\ [][Next]_vars
 
 (* ---- the property, clause by clause ------------------------------------------------ *)
@@ -111,8 +135,8 @@ C01_Tiling ==
 C01_CellTimesN == \A d \in Dims(mesh) :
       /\ Hi(mesh, d) - mesh.lo[d] = mesh.c[d] * mesh.n[d]
       /\ \A i \in 0 .. (mesh.n[d] - 1) : 2 * (CentreAx(mesh, d, i) - mesh.lo[d]) = (2 * i + 1) * mesh.c[d]
-C01_Inverse == act[1] = "index2point" /\ obs.ok => P2I(mesh, obs.v) = act[2]
-C01_OutsideIndexRejected == act[1] = "index2point" => (~obs.ok <=> ~InRange(mesh, act[2]))
+C01_Inverse == act[1] = "index2point" => \A i \in DOMAIN obs : obs[i].ok => P2I(mesh, obs[i].v) = i
+C01_OutsideIndexRejected == act[1] = "index2point" => \A i \in DOMAIN obs : (~obs[i].ok <=> ~InRange(mesh, i))
 C01_Contains == act[1] = "point2index_line" =>
       \A x \in DOMAIN obs :
          LET d == act[2]
@@ -122,10 +146,10 @@ C01_Contains == act[1] = "point2index_line" =>
                  /\ InRange(mesh, r.idx)
                  /\ InOwnCellAx(mesh, d, r.idx[d], x)
                  /\ \A a \in r.alt[d] : InClosedCellAx(mesh, d, a, x)
-C01_DiagContains == act[1] = "point2index_diag" =>
-      IF ~obs.r.ok THEN ~Inside(mesh, obs.p)
-      ELSE /\ Inside(mesh, obs.p) /\ InRange(mesh, obs.r.idx)
-           /\ \A d \in Dims(mesh) : InOwnCellAx(mesh, d, obs.r.idx[d], obs.p[d])
+C01_DiagContains == act[1] = "point2index_diag" => \A o \in DOMAIN obs :
+      IF ~obs[o].r.ok THEN ~Inside(mesh, obs[o].p)
+      ELSE /\ Inside(mesh, obs[o].p) /\ InRange(mesh, obs[o].r.idx)
+           /\ \A d \in Dims(mesh) : InOwnCellAx(mesh, d, obs[o].r.idx[d], obs[o].p[d])
 C01_Order == act[1] = "iterate" =>
       /\ Len(obs) = NCells(mesh)
       /\ \A k \in DOMAIN obs : InRange(mesh, obs[k]) /\ Flat(mesh.n, obs[k]) = k - 1
@@ -143,7 +167,15 @@ C01_AxesAgree ==
                                       /\ obs[j + 1] - obs[j] = mesh.c[act[2]]
                                       /\ 2 * CentreAx(mesh, act[2], j - 1) = obs[j] + obs[j + 1]
       /\ act[1] = "coordinate_field" => \A i \in DOMAIN obs : Ok(obs[i]) = I2PResult(mesh, i) /\ P2I(mesh, obs[i]) = i
-C01_CellRequest == act[1] = "by_cell" =>
-      IF ~obs.ok THEN \E d \in Dims(mesh) : Edge(mesh, d) % act[2][d] # 0
-      ELSE \A d \in Dims(mesh) : obs.v[d] * act[2][d] = Edge(mesh, d) /\ obs.v[d] >= 1
+C01_CellRequest == act[1] = "by_cell" => \A cr \in DOMAIN obs :
+      IF ~obs[cr].ok THEN \E d \in Dims(mesh) : Edge(mesh, d) % cr[d] # 0
+      ELSE \A d \in Dims(mesh) : obs[cr].v[d] * cr[d] = Edge(mesh, d) /\ obs[cr].v[d] >= 1
+(* an in-place move is the documented affine map of the lattice (checked on the corner and the cell) *)
+C01_MovedLattice == moved # <<>> =>
+      LET mv == moved[1]  old == moved[2] IN
+        /\ NCells(mesh) = NCells(old)
+        /\ (mv = "translate" => mesh.c = old.c /\ mesh.n = old.n /\ \A d \in Dims(mesh) : mesh.lo[d] = old.lo[d] + MoveVec[d])
+        /\ (mv \in {"scale2_about_pmin", "scale2_about_origin"} => mesh.n = old.n /\ \A d \in Dims(mesh) : Edge(mesh, d) = 2 * Edge(old, d))
+        /\ (mv = "rot90_about_pmin" => /\ mesh.n = SwapAt(old.n, 1, 2) /\ Edge(mesh, 1) = Edge(old, 2) /\ Edge(mesh, 2) = Edge(old, 1)
+                                        /\ Hi(mesh, 1) = old.lo[1] /\ mesh.lo[2] = old.lo[2])
 =============================================================================
